@@ -79,6 +79,11 @@ def templates(tier):
     add("star_target", [L("OPTIONS * HTTP/1.1\r\n\r\n")], "OPTIONS", [L("*")], [], [L("HTTP/1.1")], [], None)
     add("body0_then_more", [L("POST /x HTTP/1.1\r\nContent-Length: 0\r\n\r\nGET / HTTP/1.1\r\n\r\n")], "POST", [L("/x")], [], [L("HTTP/1.1")], [("Content-Length", [L("0")])], [])
     add("body_lf_bytes", [L("PUT / HTTP/1.1\r\nContent-Length: 3\r\n\r\n\n"), Hh("x", 1, "byte"), L("\r")], "PUT", [L("/")], [], [L("HTTP/1.1")], [("Content-Length", [L("3")])], [L("\n"), "x", L("\r")])
+    for nm, hdr, val in (("xff_v4", "X-Forwarded-For", "9.10.11.12,13.14.15.16"), ("xff_v6", "x-forwarded-for", "2001:db8::1"), ("xff_mixed", "X-Forwarded-For", "1.2.3.4,::1,10.0.0.1"),
+                         ("xff_v6_list", "X-FORWARDED-FOR", "::ffff:1.2.3.4,fe80::1:2"), ("xff_invalid", "X-Forwarded-For", "unknown"), ("xff_one_bad", "X-Forwarded-For", "1.2.3.4,nonsense,5.6.7.8"),
+                         ("xff_spaces", "X-Forwarded-For", "9.10.11.12, 13.14.15.16"), ("xff_spaces_v6", "X-Forwarded-For", "2001:db8::7,  1.2.3.4, ::1")):
+        add(nm, [L("GET /"), Hh("p", 1, "path"), L(" HTTP/1.1\r\n" + hdr + ": " + val + "\r\nHost: h\r\n\r\n")], "GET", [L("/"), "p"], [], [L("HTTP/1.1")], [("x-forwarded-for", [L(val)]), ("Host", [L("h")])], None)
+        T[nm]["xff"] = val
     if tier == "thorough":
         add("long_path", [L("GET /"), Hh("p", 12, "path"), L("?"), Hh("q", 8, "query"), L(" HTTP/1."), Hh("v", 1, "digit01"), L("\r\n\r\n")],
             "GET", [L("/"), "p"], ["q"], [L("HTTP/1."), "v"], [], None)
@@ -144,6 +149,22 @@ def flat(parts, holes):
         else:
             out += holes[p]
     return out
+
+
+def expected_address(xff):
+    """(origin, proxies) in the engine's tags: the last valid listed address is the origin, the earlier ones plus the peer are the proxies"""
+    import ipaddress
+    ips = []
+    for piece in (xff.split(",") if xff is not None else []):
+        try:
+            if "%" in piece:
+                raise ValueError
+            ips.append("ip:" + ipaddress.ip_address(piece.strip()).compressed)
+        except ValueError:
+            pass
+    if not ips:
+        return "ip:peer", []
+    return ips[-1], ips[:-1] + ["ip:peer"]
 
 
 def split_plan(name):
@@ -244,6 +265,15 @@ def _job(name):
                     valid(pc, None, "%s has the length of the text sent (got %d chars)" % (label, len(str_chars(got))))
                 else:
                     valid(pc, g, "%s equals the text sent" % label)
+            exp_origin, exp_proxies = expected_address(tpl.get("xff"))
+            try:
+                got_origin = address[1][0][1][0][1]
+                got_proxies = [p_[1][0][1] for p_ in ex.elements(address[1][1])]
+                got_port = address[1][2]
+            except Exception:
+                got_origin, got_proxies, got_port = repr(address)[:60], None, None
+            if got_origin != exp_origin or got_proxies != exp_proxies or got_port != 4000:
+                valid(pc, None, "ADDRESS: origin %s via %s port %s, the request denotes origin %s via %s port 4000" % (got_origin, got_proxies, got_port, exp_origin, exp_proxies))
             hs = list(ex.elements(headers[1][0]))
             if len(hs) != len(tpl["headers"]):
                 valid(pc, None, "%d header fields parsed, %d sent" % (len(hs), len(tpl["headers"])))
@@ -331,8 +361,6 @@ def py_parse(data):
             if not hm:
                 return None
             nm = hm.group(1).decode().lower()
-            if len(nm) == 15:
-                return None
             headers.append((KNOWN.get(nm, 'Custom("%s")' % nm), hm.group(2)))
             if nm == "content-length" and clen is None:
                 if not re.fullmatch(rb"[0-9]+", hm.group(2)):
@@ -496,6 +524,20 @@ def run_part(tier, work, mir):
                 if fl["status"] != "sat" or not fl.get("input"):
                     continue
                 data = bytes.fromhex(fl["input"])
+                if fl["what"].startswith("ADDRESS"):
+                    # forwarded-address clause: native Request.address vs what the X-Forwarded-For list denotes (peer = 127.0.0.1:4000)
+                    tn = split_plan(r["template"])[0]
+                    o, ps = expected_address(templates(tier)[tn].get("xff"))
+                    want = "OK %s|%s|4000" % (o[3:].replace("peer", "127.0.0.1"), ",".join(x[3:].replace("peer", "127.0.0.1") for x in ps))
+                    line = "reqaddr " + (data.hex() or "-")
+                    nd, nr = mengine.native_eval(exe, [line])[0], mengine.native_eval(exe_rel, [line])[0]
+                    rep = {"request": line, "text": data.decode("latin-1"), "native_dev": nd, "native_release": nr, "expected": want, "failed": fl["what"], "template": r["template"], "address": True}
+                    if nd != want or nr != want:
+                        res["violations"].append({"template": r["template"], "replay": rep})
+                    else:
+                        res["machinery"].append("address counterexample for template %s does not reproduce natively: native %s" % (r["template"], nd[:120]))
+                    done = True
+                    break
                 exp = py_parse(data)
                 line = "req %d %s" % (native_plan(r.get("plan")), data.hex() or "-")
                 nd, nr = mengine.native_eval(exe, [line])[0], mengine.native_eval(exe_rel, [line])[0]
@@ -527,6 +569,13 @@ def replay(d, path):
     exe_rel = mengine.build_mtool("release")
     r = d["replay"]
     nd, nr = mengine.native_eval(exe, [r["request"]])[0], mengine.native_eval(exe_rel, [r["request"]])[0]
+    if r.get("address"):
+        log("replay %r: Request.address natively %s / %s ; the X-Forwarded-For list denotes %s" % (r.get("text", "")[:160], nd, nr, r["expected"]))
+        if nd != r["expected"] or nr != r["expected"]:
+            log("VIOLATION property=C02 replay=%s" % path)
+            return 1
+        log("not reproduced on the current tree")
+        return 0
     if r.get("segmentation"):
         whole = mengine.native_eval(exe, ["req 0 " + r["request"].split()[2]])[0]
         log("replay %r under read plan %s: %s ; all-at-once: %s" % (r.get("text", "")[:120], r["request"].split()[1], nd[:200], whole[:200]))
